@@ -1948,6 +1948,15 @@ class Parallel(Logger):
                     )
                 raise RuntimeError(msg)
             self._running = True
+            # Create, in the same critical section, an ID that uniquely
+            # identifies the current call. If the previous call was interrupted
+            # early and the same instance is immediately reused, this id
+            # prevents workers that were concurrently finalizing a task from
+            # the previous call to run the callback. It has to change before
+            # the flags below are reset: otherwise a late callback of the
+            # previous call could see the old ID together with the fresh flags
+            # and register its outcome in the new call.
+            self._call_id = uuid4().hex
 
         # Counter to keep track of the task dispatched and completed.
         self.n_dispatched_batches = 0
@@ -1990,13 +1999,7 @@ class Parallel(Logger):
             next(output)
             return output if self.return_generator else list(output)
 
-        # Let's create an ID that uniquely identifies the current call. If the
-        # call is interrupted early and that the same instance is immediately
-        # reused, this id will be used to prevent workers that were
-        # concurrently finalizing a task from the previous call to run the
-        # callback.
         with self._lock:
-            self._call_id = uuid4().hex
             # Discard the look-ahead batches that a previous call on this
             # instance may have left behind when it was interrupted by an
             # error or by an abandoned output generator: they must not be
